@@ -241,6 +241,46 @@ fn rule_blocks(m: &wasm_read::Module) -> Result<std::collections::BTreeMap<usize
     Ok(out)
 }
 
+// ------------------------------------------------- probes outside the Coq protocol
+/// compiles one source, scans, returns the names of the matching rules
+fn scan_names(src: &str, data: &[u8]) -> Result<Vec<String>, String> {
+    catch(std::panic::AssertUnwindSafe(|| {
+        let mut c = yara_x::Compiler::new();
+        c.add_source(src).map_err(|e| e.to_string())?;
+        let rules = c.build();
+        let mut s = yara_x::Scanner::new(&rules);
+        let res = s.scan(data).map_err(|e| e.to_string())?;
+        let mut v: Vec<String> = res.matching_rules().map(|r| r.identifier().to_string()).collect();
+        v.sort();
+        Ok(v)
+    })).unwrap_or_else(|p| Err(format!("panic: {}", p)))
+}
+/// `N of (<boolean>, ..)` means at least N of the items: the order of the items cannot matter.
+/// Returns a finding (JSON) when the implementation's answer depends on it.
+fn order_probe() -> Option<String> {
+    let src = "rule first_true { condition: 1 of (true, uint8(filesize + 5) == 1) }\nrule first_undefined { condition: 1 of (uint8(filesize + 5) == 1, true) }\n";
+    let data = b"abc";
+    match scan_names(src, data) {
+        Ok(v) if v.contains(&"first_true".to_string()) != v.contains(&"first_undefined".to_string()) =>
+            Some(format!("{{\"fingerprint\":\"C02:of-tuple-result-depends-on-item-order\",\"source\":{},\"data_hex\":\"{}\",\"matching\":{:?},\"expected\":\"both rules or neither: the two conditions list the same items\"}}",
+                         json_str(src), hex(data), v)),
+        Ok(_) => None,
+        Err(e) => Some(format!("{{\"fingerprint\":\"C02:order-probe-failed\",\"error\":{}}}", json_str(&e))),
+    }
+}
+/// conditions outside the modelled language whose verdict is known by construction (the
+/// test_proto2 module fills its maps with fixed values whatever the data): a `for k, v in <map>`
+/// loop must not depend on what an earlier `with` left in the slots its variables reuse
+fn expectation_probe() -> Vec<String> {
+    let src = "import \"test_proto2\"\nrule map_after_with { condition: (with a = 1, b = 2, c = 3, d = 4, e = 5, f = uint8(filesize + 9), g = uint8(filesize + 9) : (f == 1 or g == 1)) or for any k, v in test_proto2.map_string_int64 : (k == \"one\" and v == 1) }\nrule with_first { condition: with a = 1, b = 2, c = 3, d = 4, e = 5, f = uint8(filesize + 9), g = uint8(filesize + 9) : (not defined f and not defined g) }\nrule map_after_rule { condition: for all k, v in test_proto2.map_string_bool : (v) and for any k, v in test_proto2.map_int64_string : (k == 100) }\nrule map_alone_false { condition: for any k, v in test_proto2.map_string_int64 : (v == 7) }\n";
+    let expected = vec!["map_after_rule".to_string(), "map_after_with".to_string(), "with_first".to_string()];
+    match scan_names(src, b"abc") {
+        Ok(v) if v == expected => vec![],
+        Ok(v) => vec![format!("map loops after a `with` with undefined identifiers: expected {:?} to match, the implementation says {:?}; source:\n{}", expected, v, src)],
+        Err(e) => vec![format!("map-loop probe failed: {}", e)],
+    }
+}
+
 fn corpus() -> Vec<Case> {
     let g0 = vec![GV::I(7), GV::I(-1), GV::B(true), GV::B(false), GV::S(b"Hello".to_vec()), GV::S(b"".to_vec())];
     let mk = |rules: Vec<RuleSpec>, data: &[u8], stream| Case { rules, data: data.to_vec(), globals: g0.clone(), compile_globals: g0.clone(), per_rule: true, stream };
@@ -266,7 +306,42 @@ fn corpus() -> Vec<Case> {
             }
         }
     }
+    // percentage quantifiers where n * P is an exact multiple of 100 (ceil (n * P / 100) items are
+    // needed: exactly that many true iterations satisfy it, one less does not), constant and
+    // run-time percentages, over ranges and over a pattern set
+    let mut pct_rules = vec![];
+    {
+        let rt = |c: i64| -> E { E::Arith(Op::Add, bx(E::Arith(Op::Sub, bx(E::Filesize), bx(E::Int(3)))), bx(E::Int(c))) };
+        for (n, p) in [(25i64, 28i64), (25, 56), (100, 7), (50, 14), (20, 35), (10, 10), (11, 50), (7, 100), (3, 0)] {
+            let need = (n * p + 99) / 100;
+            for k in [need, need - 1] {
+                if k < 0 { continue; }
+                for q in [E::Int(p), rt(p)] {
+                    pct_rules.push(r(0, false, false, vec![], E::ForRange(Q::Pct(bx(q)), 0, bx(E::Int(1)), bx(E::Int(n)), bx(E::Cmp(Cmp::Le, bx(E::Var(0)), bx(E::Int(k)))))));
+                }
+            }
+        }
+        // 25 patterns, 7 of them present: 28% of them is satisfied, 32% is not
+        let pats: Vec<Vec<u8>> = (0..25).map(|i| format!("Q{:02}q", i).into_bytes()).collect();
+        for p in [28i64, 32] {
+            let mut rr = r(0, false, false, vec![], E::Of(Q::Pct(bx(E::Int(p))), (0..25).collect(), SetSyn::Them, A::None));
+            rr.pats = pats.clone();
+            pct_rules.push(rr);
+        }
+    }
+    let pct_data: Vec<u8> = (0..7).flat_map(|i| format!("Q{:02}q", i * 3).into_bytes()).collect();
+    // `N of (<boolean>, ..)` with an undefined item in every position (the result depends on the
+    // order: see order_probe), `with` with several declarations of which one is undefined
+    let tuple_rules = vec![
+        r(0, false, false, vec![], E::OfB(Q::Expr(bx(E::Int(1))), vec![E::Bool(true), E::Cmp(Cmp::Eq, bx(undef()), bx(E::Int(1)))])),
+        r(0, false, false, vec![], E::OfB(Q::Expr(bx(E::Int(1))), vec![E::Cmp(Cmp::Eq, bx(undef()), bx(E::Int(1))), E::Bool(true)])),
+        r(0, false, false, vec![], E::OfB(Q::None, vec![E::Cmp(Cmp::Eq, bx(undef()), bx(E::Int(1))), E::Bool(false)])),
+        r(0, false, false, vec![], E::With(vec![(0, undef()), (1, E::Arith(Op::Add, bx(E::Filesize), bx(E::Int(2))))], bx(E::Or(bx(E::Cmp(Cmp::Eq, bx(E::Var(1)), bx(E::Int(5)))), bx(E::Cmp(Cmp::Eq, bx(E::Var(0)), bx(E::Int(1)))))))),
+        r(0, false, false, vec![], E::With(vec![(0, E::Arith(Op::Add, bx(E::Filesize), bx(E::Int(2)))), (1, undef())], bx(E::Or(bx(E::Cmp(Cmp::Eq, bx(E::Var(0)), bx(E::Int(5)))), bx(E::Cmp(Cmp::Eq, bx(E::Var(1)), bx(E::Int(1)))))))),
+    ];
     vec![
+        mk(pct_rules, &pct_data, Stream::Main),
+        mk(tuple_rules, b"abc", Stream::Main),
         mk(shift_rules, b"abc", Stream::Main),
         // finding 10 (repaired by 8b83ae6a): regression cases
         mk(vec![r(0, false, false, vec![], E::Cmp(Cmp::Eq, bx(E::Arith(Op::Add, bx(E::Int(9007199254740993)), bx(E::Int(1)))), bx(E::Int(9007199254740994))))], b"abc", Stream::Fold),
@@ -341,14 +416,15 @@ pub fn run(args: &[String]) -> i32 {
     while shards.total < n {
         attempts += 1;
         if attempts > 3 * n + 100 { eprintln!("c02: too many rejected/panicking cases"); break; }
-        let case = if !corpus.is_empty() { corpus.remove(0) } else {
+        let from_corpus = !corpus.is_empty();
+        let case = if from_corpus { corpus.remove(0) } else {
             let stream = match rng.below(100) { 0..=81 => Stream::Main, 82..=85 => Stream::Fold, 86..=90 => Stream::OfZero, 91..=94 => Stream::Lazy, _ => Stream::Deep };
             let d = if rng.chance(1, 10) { depth + 2 } else { 1 + rng.below(depth as u64) as u32 };
             gen_case(&mut rng, stream, d)
         };
         // Cedar's lesson: cap the share of constant conditions
         let consts = case.rules.iter().filter(|r| is_constant(&r.cond)).count() as u64;
-        if case.stream == Stream::Main && consts > 0 && (n_const + consts) * 100 > 15 * (n_conds + case.rules.len() as u64 + 20) { stats.inc("regenerated_constant_condition"); continue; }
+        if !from_corpus && case.stream == Stream::Main && consts > 0 && (n_const + consts) * 100 > 15 * (n_conds + case.rules.len() as u64 + 20) { stats.inc("regenerated_constant_condition"); continue; }
         let sources = sources_of(&case.rules, case.per_rule);
         let (outcome, cinfo) = run_impl_ir(&sources, &case.compile_globals, &case.globals, &case.data);
         let src = full_source(&case.rules);
@@ -418,7 +494,10 @@ pub fn run(args: &[String]) -> i32 {
     let rej = stats.0.get("rejected_by_compiler").copied().unwrap_or(0);
     if rej * 20 > shards.total as u64 + 20 { eprintln!("c02: generator produces too many rejected sources ({rej})"); return 2; }
     if shards.total < n { return 2; }
-    println!("{{\"evaluations\":{},\"distinct_nontrivial\":{},\"shards\":{},\"distribution\":{},\"samples\":[{}],\"panic_samples\":{}}}",
-        shards.total, distinct.len(), shards.shard_count, stats.json(), samples.join(","), serde_json::to_string(&panics).unwrap());
+    let unexpected = expectation_probe();
+    if !unexpected.is_empty() { for u in &unexpected { eprintln!("c02: {}", u); } return 2; }
+    let findings: Vec<String> = order_probe().into_iter().collect();
+    println!("{{\"findings\":[{}],\"evaluations\":{},\"distinct_nontrivial\":{},\"shards\":{},\"distribution\":{},\"samples\":[{}],\"panic_samples\":{}}}",
+        findings.join(","), shards.total, distinct.len(), shards.shard_count, stats.json(), samples.join(","), serde_json::to_string(&panics).unwrap());
     0
 }
